@@ -214,7 +214,7 @@ def k8s_harness(root):
                (mod.K8SExecutor, "_setup_secrets", lambda self: None), (mod.K8SExecutor, "gather_inflight_jobs", lambda self: None)]
     ex_cls = mod.K8SExecutor
     funcs = [ex_cls._start, ex_cls.stop, ex_cls._monitor, ex_cls._process_k8s_job_status, ex_cls._submit, ex_cls._submit_single_job, ex_cls._submit_jobs]
-    return {"mod": mod, "cls": "K8SExecutor", "conf": conf, "patches": patches, "funcs": funcs, "thread": lambda ex: ex._thread, "shim_modules": [mod],
+    return {"mod": mod, "cls": "K8SExecutor", "conf": conf, "patches": patches, "funcs": funcs, "thread": lambda ex: getattr(ex, "_thread", None), "shim_modules": [mod],
             "pending": lambda ex: len(ex.pending_k8s_jobs) + ex.arrayer.num_pending, "running": lambda ex: ex.is_running}
 
 
@@ -271,11 +271,21 @@ def scenario(case, prefix):
     fs = FakeScheduler(root)
     jobs = [FakeJob(i) for i in range(case["jobs"])]
     res = {}
+    start_log: list = []
 
     def main():
         ex = getattr(mod, H["cls"])("e", scheduler=fs, config=conf)
         ex.set_scheduler(fs)
         s.state_fn = lambda: (H["pending"](ex), H["running"](ex), len(fs.reported))
+        orig_start = ex._start
+
+        def logged_start():
+            # what the submitting thread sees when it decides whether a monitor has to be started (distinguishes the windows in which a job can be lost)
+            t = get_thread(ex)
+            start_log.append((bool(H["running"](ex)), bool(t is not None and t.is_alive())))
+            return orig_start()
+
+        ex._start = logged_start
         for j in jobs:
             ex.submit(j)
             for _ in range(case.get("pause", 1)):
@@ -306,7 +316,10 @@ def scenario(case, prefix):
     lost = [j.id for j in jobs if cnt[j.id] == 0]
     dup = [j for j, n in cnt.items() if n > 1]
     if not failure and lost:
-        viol.append((f"{name}:job-never-reported", f"jobs {lost} were submitted but the monitor thread ended without reporting them (reported: {fs.reported})"))
+        k = int(lost[0][3:])
+        flag, alive = start_log[k] if k < len(start_log) else (None, None)
+        window = f"flag={'set' if flag else 'cleared'}:monitor={'alive' if alive else 'dead'}"
+        viol.append((f"{name}:job-never-reported:{window}", f"(when {lost[0]} was submitted the running flag was {'set' if flag else 'cleared'} and the monitor thread {'alive' if alive else 'dead'}) jobs {lost} were submitted but the monitor thread ended without reporting them (reported: {fs.reported})"))
     if dup:
         viol.append((f"{name}:job-reported-twice", f"{dup}"))
     s.obs = [("reported", sorted(fs.reported)), ("fail", str(failure))]
